@@ -95,7 +95,7 @@ def gen(rng, min_events=3, **kwargs):
     raise RuntimeError('planted generator could not produce enough events')
 
 
-def gen_once(rng, two_bands=False, gaps=None, step=None, grid_step=None, n_events=None, et_mode=None):
+def gen_once(rng, two_bands=False, gaps=None, step=None, grid_step=None, n_events=None, et_mode=None, top=None):
     step = step or rng.choice([900, 1200, 1800, 3600])
     sy = rng.choice([0.1, 0.25, 0.2, 0.5, 0.33])
     sthr = rng.choice([2.0, 4.0, 8.0])
@@ -103,7 +103,8 @@ def gen_once(rng, two_bands=False, gaps=None, step=None, grid_step=None, n_event
     grid_step = grid_step or rng.choice([0.1, 0.2, 0.25, 0.3, 0.5, 1.0, 2.0, 2.5])
     slopes = rng.choice([[0.25, 0.5, 0.5, 1.0, 1.0, 2.0, 4.0], [0.5, 1.0], [0.125, 0.25, 3.0], [1.0]])
     n_events = n_events or rng.randint(4, 25)
-    top = rng.choice([-50.0, -20.0, 100.0, 2400.0, -1000.0])
+    drawn_top = rng.choice([-50.0, -20.0, 100.0, 2400.0, -1000.0, 40.0])
+    top = drawn_top if top is None else top
     depth = rng.choice([150.0, 350.0, 350.0, 600.0])
     band = (top - depth, top)
     rain, zeta, R, n_done = _planted_part(rng, step, n_events, sy, sthr, jthr, band, slopes)
